@@ -7,5 +7,5 @@ id=$1; d=${2:-/tmp/seed/$id/out}
 cd /repo && git apply "$d/patch.diff" || { echo "patch does not apply"; exit 2; }
 export GOFLAGS=-mod=vendor GOPROXY=off GOSUMDB=off GOTOOLCHAIN=local CGO_ENABLED=0
 sv=/tmp/tryseed.verif; rm -rf $sv; mkdir -p $sv; cp /verif/known_findings.json $sv/
-cd /verif && ./bin/vcgo check $id --verif $sv 2>&1 | grep -v "^  failed" | tail -6
+cd /verif && ./bin/vcgo check $id --verif $sv 2>&1 | grep -v "^  failed" | grep -v "^KNOWN-FINDING\|^note:" | tail -8
 cd /repo && git checkout -- . && git status --short | head -3
